@@ -81,3 +81,52 @@ Print Assumptions C10_length_respected.
 Example C10_valueless_choice_refused :
   decode BER (Some (TExp (mkTag Ctx false 0) (TChoice [TInt; TOcts]))) [160; 128; 0; 0] = Err EMalformed.
 Proof. vm_compute. reflexivity. Qed.
+
+(* ---------- character strings: what the Unicode string types accept ---------- *)
+From PV Require Import Proofs.Unicode Spec.Unicode.
+
+(* For EVERY input, codec, fuel and guiding type whose base is UTF8String (under any stack of tags,
+   primitive or segmented): an accepted value holds exactly the UTF-8 encoding (Spec/Unicode.v, written
+   from the Unicode Standard / RFC 3629) of a sequence of Unicode scalar values - no overlong form,
+   no surrogate, nothing above U+10FFFF, no truncated sequence *)
+Theorem C10_accepted_utf8_is_unicode : forall c fuel T b d tl,
+  base_of T = TStr 12 -> decode_with c fuel (Some T) b = Ok (d, tl) ->
+  exists bs cps, d = DV T (VOcts bs) /\ Forall scalar cps /\ utf8_enc cps = bs.
+Proof. exact accepted_utf8_is_unicode. Qed.
+Print Assumptions C10_accepted_utf8_is_unicode.
+
+(* BMPString ('utf-16-be': surrogate pairs are accepted, as Python does) and UniversalString
+   ('utf-32-be'); octets: every element of the value is below 256 *)
+Theorem C10_accepted_bmp_is_unicode : forall c fuel T b d tl,
+  base_of T = TStr 30 -> decode_with c fuel (Some T) b = Ok (d, tl) ->
+  exists bs, d = DV T (VOcts bs) /\ (octets bs -> exists cps, Forall scalar cps /\ utf16be_enc cps = bs).
+Proof. exact accepted_bmp_is_unicode. Qed.
+Print Assumptions C10_accepted_bmp_is_unicode.
+
+Theorem C10_accepted_universal_is_unicode : forall c fuel T b d tl,
+  base_of T = TStr 28 -> decode_with c fuel (Some T) b = Ok (d, tl) ->
+  exists bs, d = DV T (VOcts bs) /\ (octets bs -> exists cps, Forall scalar cps /\ utf32be_enc cps = bs).
+Proof. exact accepted_universal_is_unicode. Qed.
+Print Assumptions C10_accepted_universal_is_unicode.
+
+(* the three checkers of the model are exactly the reference: accepted iff the image of scalar values *)
+Theorem C10_unicode_checkers_exact : forall b,
+  (utf8_ok b = true <-> exists cps, Forall scalar cps /\ utf8_enc cps = b)
+  /\ (octets b -> (utf16be_ok b = true <-> exists cps, Forall scalar cps /\ utf16be_enc cps = b))
+  /\ (octets b -> (utf32be_ok b = true <-> exists cps, Forall scalar cps /\ utf32be_enc cps = b)).
+Proof. exact (fun b => conj (utf8_ok_iff b) (conj (utf16be_ok_iff b) (utf32be_ok_iff b))). Qed.
+Print Assumptions C10_unicode_checkers_exact.
+
+(* the model declines (EUnmodelled) for no character-string type the library has *)
+Theorem C10_string_types_all_modelled : forall n b,
+  In n [12; 18; 19; 20; 21; 22; 23; 24; 25; 26; 27; 28; 30; 7] -> str_octets_ok n b <> None.
+Proof. exact str_octets_ok_total. Qed.
+Print Assumptions C10_string_types_all_modelled.
+
+Example C10_unicode_nonvacuous :
+  decode BER (Some (TStr 12)) [12; 9; 0xC3; 0xA9; 0xE4; 0xB8; 0xAD; 0xF0; 0x9F; 0x98; 0x80]
+    = Ok (DV (TStr 12) (VOcts (utf8_enc [0xE9; 0x4E2D; 0x1F600])), [])
+  /\ decode BER (Some (TStr 12)) [12; 2; 0xC0; 0x80] = Err EUnicode
+  /\ decode BER (Some (TStr 30)) [30; 2; 0xDE; 0x00] = Err EUnicode
+  /\ decode BER (Some (TStr 28)) [28; 4; 0; 0x11; 0; 0] = Err EUnicode.
+Proof. repeat split; vm_compute; reflexivity. Qed.
